@@ -119,32 +119,13 @@ def gen_doc_cases(rng, n):
     return cases
 
 
-def run(ck):
-    proofs_ok, impl, model = L.build(ck)
-    if model is None:
-        return ck.finish(trusted=L.TRUSTED)
-    rng = ck.rng
-    if ck.replay:
-        rp = json.load(open(ck.replay))
-        cases = [rp["case"]] if "case" in rp else []
-    else:
-        cases = L.load_corpus("c06.txt")
-        cases += gen_doc_cases(rng, 100000 if ck.quick else 1200000)
-    res = L.run_all(ck, impl, model, cases)
-
-    stats = {"documents": 0, "tree_builder_panics": 0, "skeleton_ok": 0, "skeleton_bad": 0, "one_char_chunked": 0,
-             "with_scripting": 0, "without_scripting": 0, "frameset_documents": 0, "with_template": 0,
-             "with_doctype": 0, "clone_traces_not_compared_with_rcdom": 0}
-    fault_hist = {}
-    nontriv = set()
-    samples = []
-    failing = []
+def judge_batch(ck, cases, res, stats, fault_hist, nontriv, samples, by_class):
     for case, (a, b) in zip(cases, res):
         f = L.case_fields(case)
         if f["kind"] != "html":
             continue
         if "bad" in a:
-            ck.broken.append("sinkmon produced no result for %r: %s" % (case[:300], a["bad"]))
+            L.note_broken(ck, "sinkmon produced no result for %r: %s" % (case[:300], a["bad"]))
             continue
         if a["apanic"]:
             stats["tree_builder_panics"] += 1
@@ -153,7 +134,7 @@ def run(ck):
                     a["trace"][:160], json.dumps(L.describe(case), ensure_ascii=True)[:300]))
             continue
         if "bad" in b:
-            ck.broken.append("model driver failed on the trace of %r: %s" % (case[:300], b["bad"]))
+            L.note_broken(ck, "model driver failed on the trace of %r: %s" % (case[:300], b["bad"]))
             continue
         stats["documents"] += 1
         stats["with_scripting" if "s" in f["flags"] else "without_scripting"] += 1
@@ -167,12 +148,12 @@ def run(ck):
         if "append_doctype_to_document" in tr:
             stats["with_doctype"] += 1
         if L.nontrivial(tr):
-            nontriv.add(b["TREE"])
+            nontriv.add(hash(b["TREE"]))
         if len(samples) < 3:
             samples.append(L.describe(case)["input"][:200])
         faults = coq_faults(b["SKEL"])
         if b["SKEL"] == "INCONSISTENT":
-            ck.broken.append("skeleton_ok and skeleton_faults disagree on %r" % case[:300])
+            L.note_broken(ck, "skeleton_ok and skeleton_faults disagree on %r" % case[:300])
         # cross-checks: the DOM the judge saw is the tree the sinks built; an independent evaluation agrees
         clone = "maybe_clone_an_option" in tr
         if a["rpanic"]:
@@ -181,28 +162,59 @@ def run(ck):
             stats["clone_traces_not_compared_with_rcdom"] += 1
         else:
             if a["rforest"] != b["TREE"]:
-                ck.broken.append("DomSpec.run of the recorded calls differs from RcDom's tree for %r" % case[:300])
+                L.note_broken(ck, "DomSpec.run of the recorded calls differs from RcDom's tree for %r" % case[:300])
             if a["aforest"] != b["TREE"]:
-                ck.broken.append("DomSpec.run of the recorded calls differs from the arena sink's tree for %r" % case[:300])
+                L.note_broken(ck, "DomSpec.run of the recorded calls differs from the arena sink's tree for %r" % case[:300])
             try:
                 pf = py_skeleton(L.parse_forest(a["rforest"]))
                 if pf != faults:
-                    ck.broken.append("Python evaluation of the statement on RcDom's tree (%s) disagrees with skeleton_ok (%s) for %r" % (
+                    L.note_broken(ck, "Python evaluation of the statement on RcDom's tree (%s) disagrees with skeleton_ok (%s) for %r" % (
                         sorted(pf), sorted(faults), case[:300]))
             except Exception as e:      # noqa
-                ck.broken.append("cannot parse RcDom's tree for %r: %s" % (case[:200], e))
+                L.note_broken(ck, "cannot parse RcDom's tree for %r: %s" % (case[:200], e))
         if faults:
             stats["skeleton_bad"] += 1
             for x in faults:
                 fault_hist[x] = fault_hist.get(x, 0) + 1
-            failing.append((case, a, b, faults))
+            items = by_class.setdefault(classify(a["trace"], b["TREE"], faults), [])
+            items.append((case, a, b, faults) if len(items) < 200 else None)
         else:
             stats["skeleton_ok"] += 1
 
+
+
+def run(ck):
+    proofs_ok, impl, model = L.build(ck)
+    if model is None:
+        return ck.finish(trusted=L.TRUSTED)
+    rng = ck.rng
+    if ck.replay:
+        rp = json.load(open(ck.replay))
+        batches = [[rp["case"]] if "case" in rp else []]
+    else:
+        total = 100000 if ck.quick else 1200000
+        bsz = 50000
+        batches = [None] * ((total + bsz - 1) // bsz)
+
+    stats = {"documents": 0, "tree_builder_panics": 0, "skeleton_ok": 0, "skeleton_bad": 0, "one_char_chunked": 0,
+             "with_scripting": 0, "without_scripting": 0, "frameset_documents": 0, "with_template": 0,
+             "with_doctype": 0, "clone_traces_not_compared_with_rcdom": 0}
+    fault_hist = {}
+    nontriv = set()
+    samples = []
     by_class = {}
-    for case, a, b, faults in failing:
-        by_class.setdefault(classify(a["trace"], b["TREE"], faults), []).append((case, a, b, faults))
-    for cls, items in sorted(by_class.items()):
+    evaluations = 0
+    for bi, cases in enumerate(batches):
+        if cases is None:
+            cases = (L.load_corpus("c06.txt") if bi == 0 else []) + gen_doc_cases(rng, bsz)
+        evaluations += len(cases)
+        res = L.run_all(ck, impl, model, cases)
+        judge_batch(ck, cases, res, stats, fault_hist, nontriv, samples, by_class)
+        if len(ck.broken) > 20:
+            break
+
+    for cls, all_items in sorted(by_class.items()):
+        items = [it for it in all_items if it is not None]
         case, a, b, faults = min(items, key=lambda it: len(L.case_input(it[0])))
 
         def same(a2, b2, cls=cls):
@@ -214,12 +226,12 @@ def run(ck):
         (a2, b2), = L.run_all(ck, impl, model, [small])
         ck.violation(
             "parsed document does not have the canonical skeleton (%s) - %d failing cases of this class" % (
-                "+".join(sorted(faults)), len(items)),
+                "+".join(sorted(faults)), len(all_items)),
             {"kind": "failing-input", "case": small, "input": L.describe(small), "faults": sorted(faults),
              "tree": b2.get("TREE", "")[:3000], "original_case": case}, case_class=cls)
 
     ck.cov.update({
-        "evaluations": len(cases), "distinct_nontrivial": len(nontriv),
+        "evaluations": evaluations, "distinct_nontrivial": len(nontriv),
         "rule": "one evaluation = one html5ever::parse_document run (one input, one chunking, one option setting) whose "
                 "final tree is judged by the extracted Skeleton.skeleton_ok; non-trivial = distinct final trees of parses "
                 "whose call trace contains at least one of " + ", ".join(L.RARE),
